@@ -33,7 +33,31 @@ class VerifTypedError(exceptions.JsonRpcError):
 
 
 # how the method raises its protocol error: through the base class, or through a typed class whose instance overrides code / message
-CUR = __import__('threading').local()
+class CtxLocal:
+    """attributes kept per thread AND per asyncio task (context variables): a task started by the dispatcher inherits the
+    values of the code that started it, a nested dispatch inside a method can set its own without disturbing its siblings"""
+
+    def __init__(self):
+        object.__setattr__(self, '_vars', {})
+
+    def _var(self, k):
+        import contextvars
+        vs = object.__getattribute__(self, '_vars')
+        if k not in vs:
+            vs[k] = contextvars.ContextVar('verif_' + k)
+        return vs[k]
+
+    def __getattr__(self, k):
+        try:
+            return self._var(k).get()
+        except LookupError:
+            raise AttributeError(k)
+
+    def __setattr__(self, k, v):
+        self._var(k).set(v)
+
+
+CUR = CtxLocal()
 PERR_CLASSES = [exceptions.JsonRpcError, exceptions.ServerError, VerifTypedError]
 
 
@@ -157,6 +181,10 @@ def build(cfg, ev):
     exc_t = EXC[cfg['exc']]
 
     started = [0]
+    # history driver: a callable run INSIDE m_ok (it dispatches another request on the same dispatcher and records that
+    # dispatch as a trace of its own); called with the dispatcher, awaited when the methods are coroutines
+    inner = cfg.get('_inner')
+    dref = []
 
     # only when no middleware / error handler logs events for the element (then Exec is its only event and the recorded
     # order of events stays the order of the sequential model while the COMPLETION order of the elements is reversed)
@@ -175,6 +203,8 @@ def build(cfg, ev):
             ev.append({'ev': 'Exec', 'method': name, 'args': abst(received)})
             if coro:
                 return None
+            if inner and name == 'm_ok':
+                inner(dref[0], False)
         if name == 'm_perr':
             perr = getattr(CUR, 'perr', None) or cfg['perr']    # request histories change it between requests (per thread)
             data = UNSET if perr['data'] == ABSENT else conc(perr['data'])
@@ -186,6 +216,8 @@ def build(cfg, ev):
     if coro:
         async def run_coro(name, received):
             body(name, received)            # logs the execution
+            if inner and name == 'm_ok':
+                await inner(dref[0], True)
             await pause()
             return body(name, received, log=False)
 
@@ -286,6 +318,8 @@ def build(cfg, ev):
     if cfg['kind'] == 'asyncseq':
         kwargs['concurrent_batch'] = False
     d = AsyncDispatcher(**kwargs) if is_async else Dispatcher(**kwargs)
+    dref.append(d)
+
     class Boom(ViewMixin):
         """a class based view that cannot be built: calls to its methods fail while they are being bound"""
 
